@@ -124,3 +124,18 @@ def bits_equal(result, bits):
     if r.dtype.kind not in "iub":
         return False
     return r.astype(int).tolist() == [int(b) for b in bits]
+
+
+def run_repo_tests(ctx, files):
+    """Run files of the repository's own test suite in-process (they import the already contracted functions).
+    Returns (pytest exit code, number of contract evaluations that happened inside)."""
+    import os
+    import pytest
+    from . import contracts
+    from .base import REPO
+    paths = [os.path.join(REPO, f) for f in files if os.path.exists(os.path.join(REPO, f))]
+    if not paths:
+        return None, 0
+    before = sum(contracts.EVALS.values())
+    rc = pytest.main(["-q", "-x", "-p", "no:cacheprovider", "--no-header", "-W", "ignore"] + paths)
+    return int(rc), sum(contracts.EVALS.values()) - before
